@@ -29,10 +29,25 @@ def plan(tier, seed):
         for fu in (range(12) if u == "ax_k" else (0, 2, 10, 11, 3)):
             parts.append(Part(H, "stub", {"n": n, "u": u, "fu": fu}, 900 if tier == "quick" else 5000, 120,
                               "stub skeleton == real; no data in stub; merge refused; stub-made patch accepted by the real record with the same result as the direct update; manifest == container after every commit; extensions persist", weight=n))
+    parts.append(Part(H, "exts_history", {}, 900 if tier == "quick" else 3000, 120,
+                      "(S4) over histories with interrupted patches / discards / reopens: manifest of the last commit available, "
+                      "extensions persist until overridden, sidecar == container after every commit; edited sidecar refused under an uncommitted patch"))
     return parts
 
 
 def confirm(part, kwargs, native):
+    if part.func == "exts_history":
+        from vt import history as HI
+        from vt import mfhist
+        acts = [mfhist.ACTS[kwargs[k]] for k in ("a1", "a2", "a3")]
+        script = mfhist.SCRIPT % {"acts": acts, "tamper": bool(kwargs.get("tamper"))}
+        rc, out = HI.run_script(script)
+        if rc == 0:
+            return {"confirmed": False, "what": "does not reproduce on real h5py files", "script": script}
+        if rc != 1 or "MISMATCH" not in out:
+            return {"harness_error": "real-file replay crashed: " + out[-800:]}
+        return {"confirmed": True, "key": "exts_history:" + ",".join(acts) + (":tamper" if kwargs.get("tamper") else ""), "script": script,
+                "what": f"manifest history {acts} tamper={bool(kwargs.get('tamper'))}: " + " | ".join(l for l in out.splitlines() if l.startswith("MISMATCH"))[:400]}
     import vt.part as P
     P.NATIVE = True
     P.SEL.clear()
